@@ -16,5 +16,5 @@ def check(ctx, rep):
     A.rule_isolation(m, rep, 'R1')
     A.rule_emit(m, rep, 'R2')
     A.rule_capacity(m, rep, 'R3')
-    A.rule_task_closure(m, rep, 'R4')
-    A.rule_one_consumer(m, rep, 'R4b')
+    A.rule_task_closure(m, rep, 'R4', parts=('unit',))
+    A.rule_one_consumer(m, rep, 'R4b', parts=('callers',))
